@@ -372,6 +372,10 @@ fn cmd_replay(args: &[String]) -> i32 {
         }
         "filename" => props::seq::replay_file_name(rp),
         "pvote" => props::pvote::replay(rp),
+        "c16c" => {
+            let seed: u64 = rp["seed"].as_str().and_then(|s| s.parse().ok()).unwrap_or(1);
+            (0..20).find_map(|_| props::seq::c16_concurrent(seed))
+        }
         "maxbatch" => props::maxbatch::replay(rp),
         "c09" => props::image::replay(rp, true),
         "c10" => props::image::replay(rp, false),
